@@ -307,6 +307,12 @@ def third_sources(vals):
     return [s_ for s_ in ALL_SOURCES if s_ not in vals and not ((({s_} | set(vals)) >= {'pcoopt', 'cmdopt'}) and not (set(vals) >= {'pcoopt', 'cmdopt'}))]
 
 
+def really_decides(ka, kb):
+    """source ka outranks kb AND the pair is not one of the recorded inversions / the duplicate rejection: the value in ka is
+    then the one the live runtime must show"""
+    return layer_rank(ka) > layer_rank(kb) and not (ka == 'cmdini' and kb in ('pcoini', 'pcoopt')) and {ka, kb} != {'pcoopt', 'cmdopt'}
+
+
 def ordered_pairs(exclude=()):
     return [(a, b) for a in ALL_SOURCES for b in ALL_SOURCES if a != b and (a, b) not in exclude]
 
@@ -351,32 +357,53 @@ def kw_cases(rng, machs, first_id, quick):
                 cases.append(finish_kw(rng, nid(), mach, 'kw_threads', src, env, pco, cmd))
     # ---- pika.cores: all (the environment variable is a recorded defect: only as the lower source)
     pairs = [(a, b) for (a, b) in ordered_pairs() if a != 'env']
-    for (ka, kb) in (rng.sample(pairs, 8) if quick else pairs):
+    decp = [pq for pq in pairs if really_decides(*pq)]
+    for (ka, kb) in (rng.sample(decp, 4) + rng.sample([pq for pq in pairs if pq not in decp], 4) if quick else pairs):
         mach = rng.choice(mlist)
         env, pco, cmd = {}, [], ['--pika:threads=1']
         _, ncore = counts_for(mach, False, '')
         vals = {ka: 'all', kb: str(rng.choice([x for x in range(1, 5) if x != ncore]))}
         emit('cores', vals, env, pco, cmd)
         cases.append(finish_kw(rng, nid(), mach, 'kw_cores', {'cores': vals}, env, pco, cmd))
-    # ---- scheduler: an abbreviation (any prefix of a documented name) against a full name of another policy
+    # ---- scheduler: an abbreviation (any prefix of a documented name) against a full name of another policy.  Boundary
+    # abbreviations of every name are all used: 1 and 2 characters, up to / just before every dash, all but the last character
+    bound = set()
+    for full, _ in SCHED_NAMES:
+        bound.update([full[:1], full[:2], full[:-1]])
+        for i, ch_ in enumerate(full):
+            if ch_ == '-':
+                bound.update([full[:i], full[:i + 1]])
+    bound = sorted(b_ for b_ in bound if b_ and b_ not in [nm for nm, _ in SCHED_NAMES])
+    rng.shuffle(bound)
+    pairs = ordered_pairs()
+    rng.shuffle(pairs)
+    dec = [pq for pq in pairs if really_decides(*pq)]
+    # every boundary abbreviation once as the DECIDING value; then random prefixes over all ordered pairs
+    plan = [(ab, dec[i % len(dec)], True) for i, ab in enumerate(bound)]
     for rep in range(reps):
-        for (ka, kb) in ordered_pairs():
-            mach = rng.choice(mlist)
-            full, pol = rng.choice(SCHED_NAMES)
-            ab = full[:rng.randint(1, len(full) - 1)]
-            others = [nm for nm, q in SCHED_NAMES if q != sched_policy(ab)]
-            vals = {ka: ab, kb: rng.choice(others)}
-            if rng.random() < 0.25 and third_sources(vals):
-                o2 = rng.choice(others)
-                vals[rng.choice(third_sources(vals))] = o2[:rng.randint(1, len(o2))]
-            env, pco, cmd = {}, [], ['--pika:threads=%d' % rng.randint(1, 3)]
-            emit('scheduler', vals, env, pco, cmd)
-            cases.append(finish_kw(rng, nid(), mach, 'kw_scheduler', {'scheduler': vals}, env, pco, cmd))
+        for pq in pairs:
+            full, _ = rng.choice(SCHED_NAMES)
+            plan.append((full[:rng.randint(1, len(full) - 1)], pq, False))
+    for ab, (ka, kb), strict in plan:
+        mach = rng.choice(mlist)
+        others = [nm for nm, q in SCHED_NAMES if q != sched_policy(ab)]
+        vals = {ka: ab, kb: rng.choice(others)}
+        if not strict and rng.random() < 0.25 and third_sources(vals):
+            o2 = rng.choice(others)
+            vals[rng.choice(third_sources(vals))] = o2[:rng.randint(1, len(o2))]
+        env, pco, cmd = {}, [], ['--pika:threads=%d' % rng.randint(1, 3)]
+        emit('scheduler', vals, env, pco, cmd)
+        cases.append(finish_kw(rng, nid(), mach, 'kw_scheduler', {'scheduler': vals}, env, pco, cmd))
     # ---- binding keywords; the option is composing, so never in PIKA_COMMANDLINE_OPTIONS and on the command line at once
     bm = machs.get('syn', machs['real'])
     for rep in range(reps):
-        for (ka, kb) in ordered_pairs(exclude=[('pcoopt', 'cmdopt'), ('cmdopt', 'pcoopt')]):
-            a, b = rng.sample(BIND_KEYWORDS, 2)
+        bp = ordered_pairs(exclude=[('pcoopt', 'cmdopt'), ('cmdopt', 'pcoopt')])
+        rng.shuffle(bp)
+        bp.sort(key=lambda pq: not really_decides(*pq))        # deciding pairs first: every keyword decides at least once
+        off = rng.randint(0, 4)
+        for i, (ka, kb) in enumerate(bp):
+            a = BIND_KEYWORDS[(i + off) % len(BIND_KEYWORDS)]
+            b = rng.choice([x for x in BIND_KEYWORDS if x != a])
             k = rng.choice([6, 6, 5, 4, 3])
             k = min(k, bm['maskcount'])
             vals = {ka: a, kb: b}
